@@ -681,7 +681,12 @@ def _j1_required_header(eng, fn: FunctionInfo, test: ast.expr) -> Optional[str]:
     defs = [d for d in eng.flow._defs(fn).get(norm(test.comparators[0]), []) if d[0] == "assign"]
     if not defs or not all(norm(d[1]).endswith(".headers()") for d in defs):
         return None
-    return f"J1: {key!r} is required in {fn.cls.name}.more_header_registry and check_header(…, check_more=True) runs before CEK recovery (C15 R15.1)"
+    # ... and JWERegistry.check_header validates the model's own table on every path, strict or not
+    from .c15 import alg_specific_validation_ok
+    chk = eng.prog.cls("rfc7516.registry:JWERegistry").methods.get("check_header")
+    if chk is None or not alg_specific_validation_ok(eng, chk):
+        return None
+    return f"J1: {key!r} is required in {fn.cls.name}.more_header_registry, JWERegistry.check_header validates that table on every path and check_header(…, check_more=True) runs before CEK recovery (C15 R15.1)"
 
 
 def _j2_class_family(eng, fn: FunctionInfo, node: ast.Assert) -> Optional[str]:
